@@ -346,6 +346,9 @@ pub fn run_sql_check(ctx: &Ctx, which: Which) -> Report {
         head.merge(part);
     }
     // tags coverage
+    if which == Which::C14 && (ctx.replay.is_none() || ctx.wants("values-lists")) {
+        c14_values(&mut head);
+    }
     head.rule = match which {
         Which::C07 => "E-sql queries x all database instances of the tables they read (<= N rows in total, cells from 2-3 value domains incl. NULL and range boundaries, unique columns honoured), tables declared with interval sizes and with the exact instance sizes; oracle: every cell returned by SQLite for the original query is a reference member of the declared column type (NULL iff optional) and the row count lies in the declared size. non-trivial = (query, database) pairs returning at least one row",
         Which::C08 => "E-sql queries x all database instances (as C07); oracle: SQLite result of the original text vs of the rendered text on the same connection: equal multisets, equal sequences under a total ORDER BY, equal column count, equal names where SQL defines them; LIMIT without total order compared by cardinality and inclusion in the un-limited result. non-trivial = pairs returning at least one row",
@@ -517,6 +520,73 @@ fn check_c14(gq: &GenQuery, c: &CompiledOk, orig: &Table, db: &Db, r: &mut Repor
     }
 }
 
+/// literal value lists (reachable through the builder API only): every list of length <= 4 over a 3-value alphabet, as
+/// integers, floats and texts; the list IS the data, so a UNIQUE flag on the column (and on a one-to-one projection
+/// of it) is checked against the list itself
+fn c14_values(r: &mut Report) {
+    use qrlew::builder::Ready;
+    use qrlew::expr::Expr;
+    let alphabet = [1i64, 2, 3];
+    let mut lists: Vec<Vec<i64>> = vec![vec![]];
+    let mut frontier: Vec<Vec<i64>> = vec![vec![]];
+    for _ in 0..4 {
+        let mut next = vec![];
+        for l in &frontier {
+            for a in alphabet {
+                let mut l2 = l.clone();
+                l2.push(a);
+                next.push(l2);
+            }
+        }
+        lists.extend(next.iter().cloned());
+        frontier = next;
+    }
+    for l in lists.iter().filter(|l| !l.is_empty()) {
+        let distinct = {
+            let mut s = l.clone();
+            s.sort();
+            s.dedup();
+            s.len() == l.len()
+        };
+        for kind in ["int", "float", "text"] {
+            r.evaluations += 1;
+            let built = guarded(|| -> Relation {
+                match kind {
+                    "int" => Relation::values().name("v").values(l.iter().map(|x| Value::integer(*x))).build(),
+                    "float" => Relation::values().name("v").values(l.iter().map(|x| Value::float(*x as f64 + 0.5))).build(),
+                    _ => Relation::values().name("v").values(l.iter().map(|x| Value::text(format!("t{x}")))).build(),
+                }
+            });
+            let rel = match built {
+                Ok(rel) => rel,
+                Err(p) => {
+                    r.reach("values_panics(left to C18)", &p.site());
+                    continue;
+                }
+            };
+            let flagged = rel.schema().iter().any(|f| matches!(f.constraint(), Some(Constraint::Unique) | Some(Constraint::PrimaryKey)));
+            if flagged {
+                r.add_count("unique_value_lists", 1);
+                r.distinct_nontrivial += 1;
+            }
+            if flagged && !distinct {
+                r.violation(format!("unique-violated root=values kind={kind}"), "values-lists", json!({"values": l, "kind": kind, "schema": rel.schema().to_string(), "note": "the list is the data: it repeats a value but the column is flagged UNIQUE"}));
+                continue;
+            }
+            // a one-to-one projection keeps the flag: still only when the list is duplicate-free
+            let col = rel.schema().iter().next().map(|f| f.name().to_string()).unwrap_or_default();
+            let mapped = guarded(|| -> Relation { Relation::map().name("m").with(("y", Expr::opposite(Expr::col(col.clone())))).with(("z", Expr::col(col.clone()))).input(rel.clone()).build() });
+            if let Ok(m) = mapped {
+                for f in m.schema().iter() {
+                    if matches!(f.constraint(), Some(Constraint::Unique) | Some(Constraint::PrimaryKey)) && !distinct {
+                        r.violation(format!("unique-violated root=map-over-values kind={kind}"), "values-lists", json!({"values": l, "kind": kind, "field": f.name(), "schema": m.schema().to_string()}));
+                    }
+                }
+            }
+        }
+    }
+}
+
 // ---------------------------------------------------------------------------------------
 // C15 (b): ambiguous names
 
@@ -615,6 +685,50 @@ pub fn c15b(ctx: &Ctx, r: &mut Report) {
         }
     }
     let e = new_engine(&world);
+    // schema-qualified tables (main.users ...) and CTEs / aliases whose name is the last component of a qualified
+    // table: the qualified reference must keep naming the table (SQLite: `main` is its own schema name)
+    {
+        let relations_q = world.relations_qualified();
+        let qq: Vec<(&str, Vec<&'static str>)> = vec![
+            ("WITH users AS (SELECT id + 10 AS id FROM main.orders) SELECT id FROM main.users", vec!["users", "orders"]),
+            ("WITH users AS (SELECT id + 10 AS id FROM main.orders) SELECT id FROM users", vec!["users", "orders"]),
+            ("WITH orders AS (SELECT id + 10 AS id, age FROM main.users) SELECT a.id, b.id AS oid FROM main.orders AS a JOIN orders AS b ON a.id <> b.id", vec!["users", "orders"]),
+            ("WITH users AS (SELECT id + 10 AS id FROM main.users) SELECT id FROM main.users", vec!["users"]),
+            ("WITH USERS AS (SELECT id + 10 AS id FROM main.orders) SELECT id FROM main.users", vec!["users", "orders"]),
+            ("SELECT id FROM main.users", vec!["users"]),
+            ("SELECT users.id FROM main.users JOIN main.orders ON users.id = orders.user_id", vec!["users", "orders"]),
+            ("SELECT main.users.id FROM main.users", vec!["users"]),
+            ("WITH t AS (SELECT id FROM main.users) SELECT t.id FROM t JOIN main.orders ON t.id = orders.user_id", vec!["users", "orders"]),
+        ];
+        for (sql, tables) in qq {
+            r.evaluations += 1;
+            if e.conn.prepare(sql).is_err() {
+                r.add_count("qualified_queries_rejected_by_sqlite", 1);
+                continue;
+            }
+            if let Outcome::Ok(c) = compile(sql, &relations_q) {
+                r.distinct_nontrivial += 1;
+                for db in world.databases(&tables, 2) {
+                    fill(&e, &world, &db);
+                    match (e.query(sql), e.query(&c.rendered)) {
+                        (Ok(o), Ok(n)) => {
+                            if !same_multiset(&o, &n, 1e-9) {
+                                r.violation("qualified-name-resolves-differently".to_string(), "sql-ambiguity", json!({"query": sql, "rendered": c.rendered, "original_result": o.show(), "rendered_result": n.show(), "database": show_db(&db)}));
+                                break;
+                            }
+                        }
+                        (Ok(_), Err(err)) => {
+                            r.violation(format!("qualified-accepted-but-rendered-fails {}", sig_of_error(&err)), "sql-ambiguity", json!({"query": sql, "rendered": c.rendered, "error": err}));
+                            break;
+                        }
+                        _ => break,
+                    }
+                }
+            } else {
+                r.add_count("qualified_queries_refused", 1);
+            }
+        }
+    }
     for (sql, tables) in qs {
         let case_id = "sql-ambiguity";
         r.evaluations += 1;
